@@ -656,13 +656,63 @@ static void vf_native(void)
                 canaries=[{"fn": f.name, "rx": r"    iptr\+\+;\n", "rp": "", "expect": r"%s\.(postcondition|loop_invariant_step)" % cname}])
 
 
+def unit_count(which, nmax=6):
+    """VH::countUndefined / countDefined (iterator walk -> pointer walk), Route C, loop closed by invariant."""
+    und = which == "countUndefined"
+    cname = "VH_" + which
+    pre = BOOL + """
+#define NMAX %d
+#define FFFF_(v) ((v) > 1.0e30 || (v) != (v))
+static bool FFFF(double v) { return FFFF_(v); }
+#define HIT_(k) (%sFFFF_(W_vec[k]))
+#define IDX_ ((long)(__CPROVER_POINTER_OFFSET(it) / 8))   /* rank designated by the walking pointer */
+""" % (nmax, "" if und else "!")
+    cnt = lambda upto: " + ".join("((%d < (%s) && HIT_(%d)) ? 1 : 0)" % (k, upto, k) for k in range(nmax))
+    contract = "\n".join([
+        "__CPROVER_requires(0 <= vec_size && vec_size <= NMAX && vec == W_vec)",
+        "__CPROVER_assigns()",
+        "__CPROVER_ensures(__CPROVER_return_value == %s)" % cnt("vec_size"),
+    ])
+    loop = "\n".join([
+        "__CPROVER_assigns(it, count)",
+        "__CPROVER_loop_invariant(__CPROVER_same_object(it, W_vec) && __CPROVER_POINTER_OFFSET(it) % 8 == 0 && 0 <= IDX_ && IDX_ <= vec_size)",
+        "__CPROVER_loop_invariant(count == %s)" % cnt("IDX_"),
+        "__CPROVER_decreases(vec_size - IDX_)",
+    ])
+    f = Fn("VectorHelper::" + which, "src/Basic/VectorHelper.cpp", r"^int VectorHelper::%s\(const VectorDouble &vec\)\s*$" % which,
+           csig="int %s(const double* vec, int vec_size)" % cname, contract=contract, loops={1: loop}, nloops=1,
+           rewrites=[(r"VectorDouble::const_iterator it\(vec\.begin\(\)\);", "const double* it = vec;", 1), (r"vec\.end\(\)", "(vec + vec_size)", 1)])
+    h = """
+void vf_harness(void)
+{
+  vf_havoc_inputs();
+  %s(W_vec, W_n);
+  VF_REACH();
+}
+""" % cname
+    native = r"""
+static void vf_native(void)
+{
+  if (!(0 <= W_n && W_n <= NMAX)) exit(77);
+  int r = %s(W_vec, W_n), e = 0;
+  for (int k = 0; k < W_n; k++) if (HIT_(k)) e++;
+  __CPROVER_assert(r == e, "the number of %s elements");
+}
+""" % (cname, "undefined" if und else "defined")
+    return Unit("C11.VH." + which, [f], prelude=pre, harness=h, native=native, pre_inputs=BOOL, defines={"NMAX": nmax},
+                inputs=[("double", "W_vec", "NMAX"), ("int", "W_n")], enforce=cname, backends=("minisat", "cadical"), timeout=600, fallback_unwind=nmax + 2,
+                claim="VH::%s returns the number of %s elements (undefined = NaN or > 1e30), each element counted once; nothing written; loop closed by invariant (length <= %d)" % (which, "undefined" if und else "defined", nmax),
+                assumptions=["at most %d elements (quantifier range)" % nmax, "const VectorDouble& -> (const double*, int); const_iterator -> const double* (begin = data, end = data + size)"],
+                canaries=[{"fn": f.name, "rx": r"count\+\+;", "rp": "count = 1;", "expect": r"%s\.(postcondition|loop_invariant_step)" % cname}])
+
+
 def units(tier):
-    return [unit_dense_dims(), unit_sparse_dims(), unit_normmatrix(), unit_where("Minimum"), unit_where("Maximum"), unit_where_element(), unit_extremum("maximum"), unit_extremum("minimum"), unit_extremum_vv("maximum"), unit_extremum_vv("minimum"), unit_extremum_int("maximum"), unit_extremum_int("minimum"), unit_is_sorted(), unit_is_constant("double"), unit_is_constant("int")]
+    return [unit_dense_dims(), unit_sparse_dims(), unit_normmatrix(), unit_where("Minimum"), unit_where("Maximum"), unit_where_element(), unit_extremum("maximum"), unit_extremum("minimum"), unit_extremum_vv("maximum"), unit_extremum_vv("minimum"), unit_extremum_int("maximum"), unit_extremum_int("minimum"), unit_is_sorted(), unit_is_constant("double"), unit_is_constant("int"), unit_count("countUndefined"), unit_count("countDefined")]
 
 
 META = {
     "level": "other",
-    "explanation": "(the two dimension units and the twelve VH units (whereMinimum, whereMaximum, whereElement, isSorted, isConstant (double, int), maximum, minimum, their vector-of-vectors and VectorInt forms) are unbounded proofs, normMatrix.terms is a bounded stand-in, hence level 'other') Shape/index contracts of the Eigen-backed dense kernels and sparse product kernels for every shape; extremum-rank contracts of VH::whereMinimum / whereMaximum (loop invariant); numerical values, sparse storage, decompositions and thread-count independence are not decidable here.",
+    "explanation": "(the two dimension units and the fourteen VH units (whereMinimum, whereMaximum, whereElement, isSorted, isConstant (double, int), countUndefined, countDefined, maximum, minimum, their vector-of-vectors and VectorInt forms) are unbounded proofs, normMatrix.terms is a bounded stand-in, hence level 'other') Shape/index contracts of the Eigen-backed dense kernels and sparse product kernels for every shape; extremum-rank contracts of VH::whereMinimum / whereMaximum (loop invariant); numerical values, sparse storage, decompositions and thread-count independence are not decidable here.",
     "trusted_base": ["CBMC 6.11 C++ front end", "Eigen (numerics)", "stub classes"],
     "assumptions": [],
     "not_covered": ["values computed by Eigen/csparse", "csparse storage of MatrixSparse and its non-product methods", "Cholesky / eigen-decomposition", "thread-count independence (no thread model)",
